@@ -46,7 +46,7 @@ def classify_source(prog, b, t, depth=0):
 def classify_container(prog, b, t, depth=0):
     t = strip(t)
     while isinstance(t, tuple):
-        if t[0] == 'call' and cname(t[1]) in ('Clone::clone', 'Deref::deref', 'DerefMut::deref_mut', 'Option::unwrap', 'Result::unwrap', 'Option::expect', 'Result::expect', 'slice::last', 'slice::first', 'Try::branch', 'IntoIterator::into_iter', 'slice::iter', 'Iterator::enumerate'):
+        if t[0] == 'call' and cname(t[1]) in ('Clone::clone', 'Deref::deref', 'DerefMut::deref_mut', 'Option::unwrap', 'Result::unwrap', 'Option::expect', 'Result::expect', 'slice::last', 'slice::first', 'Try::branch', 'IntoIterator::into_iter', 'slice::iter', 'Iterator::enumerate', 'Index::index', 'slice::get', 'slice::get_unchecked'):
             t = strip(t[2])
         elif t[0] in ('as',):
             t = strip(t[1])
@@ -131,6 +131,57 @@ def _classify_vec(prog, b, v, depth):
     return classify_container(prog, b, v, depth)
 
 
+
+def _is_collides_of_elem(prog, t, elem_ok):
+    """t == KinematicsWithShape::collides(robot, &<elem>.joints) with elem accepted by elem_ok"""
+    t = strip(t)
+    if not (isinstance(t, tuple) and t[0] == 'call' and cname(t[1]) == 'KinematicsWithShape::collides' and len(t) == 4):
+        return False
+    a = strip(t[3])
+    return isinstance(a, tuple) and a[0] == 'fld' and a[2] == 'joints' and elem_ok(a[1])
+
+
+def _swept_before(prog, probe, trace_local, blk):
+    """Has every element of the trace passed collides() == false when control reaches block blk?  Either the false edge of
+    `trace.(par_)iter().any(|s| collides(&s.joints))` dominates blk, or blk lies behind the normal exit of a loop over the
+    whole trace in which every iteration that continues has passed the false edge of collides(&elem.joints)."""
+    for g, k, sw in probe.guard_terms(blk):
+        g = strip(g)
+        if isinstance(g, tuple) and g[0] == 'call' and cname(g[1]).split('::')[-1] == 'any' and opw.truth(k) is False:
+            base, ad = util.iter_chain(g[2])
+            cb, caps = util.closure_of_term(prog, g[3])
+            if cb is not None and _is_local_term(probe, base, trace_local) and all(a in ('iter', 'par_iter', 'into_iter') for a in ad):
+                rv = [strip(x[0]) for x in cb.return_values()]
+                if len(rv) == 1 and _is_collides_of_elem(prog, rv[0], lambda e: util.is_param(strip(e), 2)):
+                    return True
+        # the None edge of `next()` of an iteration over the whole trace: the loop ran to completion
+        if isinstance(g, tuple) and g[0] == 'discr' and k == 0:
+            nx = strip(g[1])
+            if not (isinstance(nx, tuple) and nx[0] == 'call' and mir.path_tail(nx[1], 'next')):
+                continue
+            it = strip(nx[2])
+            if isinstance(it, tuple) and it[0] == 'mutb':
+                it = it[2]
+            base, ad = util.iter_chain(strip(it))
+            if not _is_local_term(probe, base, trace_local) or any(a not in ('iter', 'into_iter') for a in ad):
+                continue
+            header = [bi for bi, t in probe.calls() if mir.path_tail(callee_name(t), 'next') and probe.blocks[bi]['term'].get('target') is not None
+                      and (probe.blocks[bi]['term']['target'] == sw or probe.dominates(bi, sw)) and probe.reaches(sw, bi)]
+            if len(header) != 1:
+                continue
+            hb = header[0]
+            back = [p for p in probe.pred(hb) if probe.reaches(sw, p)]
+            if not back:
+                continue
+
+            def elem_ok(e):
+                src = util.loop_source(e)
+                return src is not None and util.iter_chain(src)[0] == base
+            if all(any(_is_collides_of_elem(prog, g2, elem_ok) and opw.truth(k2) is False for g2, k2, sw2 in probe.guard_terms(p)) for p in back):
+                return True
+    return False
+
+
 def run(ctx):
     prog = ctx.prog
     ctx.rule('R12.1', 'joint vectors from the raw (not collision-filtered) kinematics must pass a collides()==false edge before reaching Ok(trace)')
@@ -164,32 +215,14 @@ def run(ctx):
     # whole-trace check dominating the Ok(trace) return
     ok_defs = [(t, d) for t, d, rb in probe.return_values() if isinstance(strip(t), tuple) and strip(t)[0] == 'agg' and 'Ok' in strip(t)[1]]
     ctx.require(len(ok_defs) >= 1, 'Ok(trace) return of probe_strategy')
-    whole = True
-    for t, d in ok_defs:
-        found = False
-        for g, k, sw in probe.guard_terms(d[1]):
-            g = strip(g)
-            if isinstance(g, tuple) and g[0] == 'call' and cname(g[1]).split('::')[-1] == 'any' and opw.truth(k) is False:
-                base, ad = util.iter_chain(g[2])
-                cb, caps = util.closure_of_term(prog, g[3])
-                if cb is not None and _is_local_term(probe, base, trace_local[0]):
-                    rv = [strip(x[0]) for x in cb.return_values()]
-                    if len(rv) == 1 and isinstance(rv[0], tuple) and rv[0][0] == 'call' and cname(rv[0][1]) == 'KinematicsWithShape::collides' \
-                            and 'joints' in show(rv[0][3], maxdepth=4) and util.is_param(strip(strip(rv[0][3])[1]) if strip(rv[0][3])[0] == 'fld' else ('x',), 2):
-                        found = True
-        whole = whole and found
+    whole = all(_swept_before(prog, probe, trace_local[0], d[1]) for t, d in ok_defs)
     # the sweep sees every waypoint that was pushed: nothing is removed from the trace before it (waypoints dropped first -
     # say the interpolated ones when they are not wanted in the output - would never be tested although the robot moves through them)
     removers = opw.VEC_REMOVERS | {'retain', 'retain_mut', 'dedup', 'dedup_by', 'dedup_by_key'}
     for bi, t in probe.calls():
         n = cname(callee_name(t)).split('::')[-1]
         if n in removers and t['args'] and _root_local(probe, t['args'][0], bi) == trace_local[0]:
-            after = False
-            for g, k, sw in probe.guard_terms(bi):
-                g = strip(g)
-                if isinstance(g, tuple) and g[0] == 'call' and cname(g[1]).split('::')[-1] == 'any' and opw.truth(k) is False and \
-                        _is_local_term(probe, util.iter_chain(g[2])[0], trace_local[0]):
-                    after = True
+            after = _swept_before(prog, probe, trace_local[0], bi)
             ctx.check(after, 'R12.1', 'sweep-before-%s' % n, probe.where(bi), probe.path,
                       'waypoints are removed from the trace (%s) before the collision sweep: the removed ones are never checked' % n, detail='%s after the sweep' % n)
     for bi, cls, elem_checked, desc in classes:
@@ -303,8 +336,19 @@ def run(ctx):
         t = strip(t)
         if isinstance(t, tuple) and t[0] == 'agg' and 'Ok' in t[1] and 'chain' not in show(t, maxdepth=6) and 'collect' not in show(t, maxdepth=4):
             elem = _single_vec_elem(t)
-            for g, k, sw in step.guard_terms(d[1]):
-                bd = util.as_bound(g, opw.truth(k))
+            conds = [util.as_bound(g, opw.truth(k)) for g, k, sw in step.guard_terms(d[1])]
+            # `solutions.iter().find(|next| cost(starting, next, ..) <= max)`: the accepted element is the one the predicate held for
+            e0 = strip(elem) if elem is not None else None
+            if isinstance(e0, tuple) and e0[0] == 'fld' and isinstance(e0[1], tuple) and e0[1][0] == 'as' and e0[1][2] == 'Some':
+                fc = strip(e0[1][1])
+                if isinstance(fc, tuple) and fc[0] == 'call' and cname(fc[1]) == 'Iterator::find' and len(fc) == 4:
+                    fcb, fcaps = util.closure_of_term(prog, fc[3])
+                    frv = fcb.return_values() if fcb is not None else []
+                    if len(frv) == 1:
+                        ELEM = ('const', 'marker', 'accepted element', None)
+                        conds.append(util.as_bound(util.subst_closure(fcb, frv[0][0], list(fcaps), [ELEM]), True))
+                        elem = ELEM
+            for bd in conds:
                 if bd is not None:
                     g = ('bin', 'Le' if bd[0] == 'le' else 'Lt', bd[1], bd[2])
                     lhs, rhs = strip(bd[1]), strip(bd[2])
@@ -401,7 +445,7 @@ def _cost_formula(ctx, prog, step):
     """R12.4: the cost the acceptance test relies on is sum_i |from[i] - to[i]| * coefficients[i] over all six joints, each joint
     with its own coefficient (the continuity bound of the property is stated in this weighted metric)"""
     from .. import algebra
-    costs = {t['callee'].get('resolved') for bi, t in step.calls() if cname(callee_name(t)).endswith('transition_costs')}
+    costs = {t['callee'].get('resolved') for b2 in [step] + list(util.closure_bodies(prog, step.path)) for bi, t in b2.calls() if cname(callee_name(t)).endswith('transition_costs')}
     costs = [prog.bodies[p] for p in costs if p in prog.bodies]
     if not ctx.check(len(costs) == 1, 'R12.4', 'cost-formula/helper', step.where(0), step.path, 'transition cost helper not found'):
         return
@@ -753,7 +797,11 @@ def _flags(ctx, prog, probe, step):
             seen['ext'] = True
         else:
             v = _flag_names(flags)
-            if cls == 'trusted' and 'plan_rrt' in show(joints, maxdepth=8) or (isinstance(v, tuple) and v[0] == 'bitand' and 'TARGET.flags' in v):
+            # which relocation the waypoint comes from: the one that starts at the caller's start configuration (a parameter)
+            # is the onboarding, one that starts anywhere else closes a gap inside the stroke
+            rrts = mir.subterms(joints, lambda x: x[0] == 'call' and cname(x[1]) == 'RRTPlanner::plan_rrt' and len(x) >= 5)
+            from_start = bool(rrts) and all(util.param_index(x[3]) is not None for x in rrts)
+            if cls == 'trusted' and rrts and not from_start or (isinstance(v, tuple) and v[0] == 'bitand' and 'TARGET.flags' in v):
                 ok = v == ('bitand', ('not', 'LIN_INTERP'), 'TARGET.flags')
                 ctx.check(ok, 'R12.5', 'flags/rrt-gap', probe.where(bi), probe.path, 'waypoints of an RRT gap closure carry the target flags without LIN_INTERP', found=str(v))
                 seen['rrt'] = True
